@@ -3,6 +3,18 @@
 import json, subprocess
 
 CHECKS = {
+ "C01": ("property-based testing: generated well-typed program IRs (Core and Elements jets) x generated witnesses; encode/decode round-trip oracle over MaxSharing post-order walks",
+         "Exploration with a round-trip oracle: commit-time (CommitNode::decode) and redemption-time (RedeemNode::decode) round trips of generated programs with all combinator kinds, sharing swept 0..0.6; element-wise equality of combinator, payload, child indices, cmr, arrows, ihr/amr, witness bits; re-encoding reproduces both byte streams.",
+         "Trusted: the IR-first generator (the inference context holds only the program's own nodes, as the quantifier requires; commit-time programs never share witness/disconnect-bearing sub-expressions). Programs produced by prune are outside this property's quantifier and are checked by C08.",
+         "DESIGN.md §6 C01"),
+ "C08": ("property-based testing: generated satisfying programs x witnesses; metamorphic/differential oracle (same cmr, still runs, Rust re-decode, libsimplicity CHECK_ALL via own 9-parameter binding, idempotence)",
+         "Exploration: every generated Elements program that runs is pruned; the result must keep the cmr, run, decode back to itself in Rust, be accepted by the C decoder/type checker and by evalTCOExpression(CHECK_ALL), and be a fixed point of prune.",
+         "Trusted: libsimplicity as reference for the anti-DoS rule; own extern declaration of evalTCOExpression with the C header's parameter list; minimal Elements environment (jets are the Elements namesakes of modelled Core jets). Known finding F15 is excluded by a predicate on the pruned program (case/assertion identity-root collision).",
+         "DESIGN.md §6 C08"),
+ "C12": ("property-based testing: generated programs x wrong-typed witness candidates x API routes; validity predicate on the result",
+         "Exploration of a validity predicate: for right-typed, wider, narrower, same-width-other-shape, unit and missing candidates on every witness node, finalize_unpruned, finalize_pruned and the witness-map route must return Err or a program whose witnesses all have their node's target type, whose serialisation decodes back and which runs without panic.",
+         "Trusted: the generator and the two-pass typing. Known findings F4/F4b (unchecked attachment, panics downstream) are keyed on cases that contain a wrong-typed candidate; with only right-typed candidates any failure is a violation.",
+         "DESIGN.md §6 C12"),
  "C05": ("property-based testing: type-directed program generation x generated inputs/witnesses, differential against a width-free big-step evaluator; metamorphic wrappers",
          "Exploration with a reference model (model::eval over value trees, model::jets for 240+ Core jets, model::cmr for the root passed by disconnect): verdict, failure kind (with hidden root) and output value of every run must equal the semantics; each run is repeated under three wrappers that move the program to unaligned offsets and reused frames.",
          "Trusted: model::eval/model::jets/model::cmr/model::layout, the IR-first generator (each reachable IR node is materialised exactly once in a fresh context). Jet names and type names are read from the crate's tables (checked against C by C14). Only Core jets with a functional model are generated; others are covered differentially by C06.",
